@@ -186,6 +186,10 @@ class World(object):
         reset_budget()
         kind = op['op']
         mut = []
+        others = None
+        if self.mode == 'inter' and kind in ('step', 'affs', 'eval', 'get_reg', 'dump', 'clone') and len(self.machines) > 1:
+            mine = op.get('m')
+            others = [(k, canon.ser_machine(mm)) for k, mm in sorted(self.machines.items()) if k != mine]
         try:
             r = getattr(self, 'op_' + kind)(idx, op, resolved, mut)
         except Budget:
@@ -194,6 +198,11 @@ class World(object):
             r = ['EXC', 'RecursionError']
         except Exception as e:
             r = canon.exc_tag(e)
+        if others:
+            for k, before in others:
+                if k in self.machines and canon.ser_machine(self.machines[k]) != before:
+                    mut.append('other-machine')
+                    break
         if isinstance(r, list) and r and r[0] == 'EXC':
             self.stats['raised'] += 1
         rec = {'r': r}
@@ -239,7 +248,10 @@ class World(object):
             return None
         before = canon.ser_instr_input(i)
         try:
-            affs = s.H.get_instr_expr(i, s.E.ExprInt(s.MI.uint32(op.get('eip', 0x1000))), [])
+            if op.get('segm'):
+                affs = s.H.get_instr_expr(i, s.E.ExprInt(s.MI.uint32(op.get('eip', 0x1000))), [], set(op['segm']))
+            else:
+                affs = s.H.get_instr_expr(i, s.E.ExprInt(s.MI.uint32(op.get('eip', 0x1000))), [])
         finally:
             after = canon.ser_instr_input(i)
             if after != before:
@@ -283,6 +295,18 @@ class World(object):
         if self.ser_bind(d) != before:
             mut.append('bind')
         return 'ok'
+
+    def op_clone(self, idx, op, resolved, mut):
+        # a second machine started from a copy of another machine's pool (mpool.copy())
+        s = sut()
+        src = self.machines[op['from']]
+        before = canon.ser_machine(src)
+        m2 = s.V.eval_abs({})
+        m2.pool = src.pool.copy()
+        self.machines[op['m']] = m2
+        if canon.ser_machine(src) != before:
+            mut.append('machine')
+        return canon.ser_machine(m2)
 
     @staticmethod
     def ser_bind(d):
@@ -386,8 +410,8 @@ class World(object):
 
 
 def thread_of(op, idx):
-    if 'm' in op and op['op'] in ('new_machine', 'eval', 'get_reg', 'dump', 'step', 'affs'):
-        return 'm%d' % op['m']
+    if 'm' in op and op['op'] in ('new_machine', 'eval', 'get_reg', 'dump', 'step', 'affs', 'clone'):
+        return 'm%d' % op.get('root', op['m'])
     if op['op'] in ('new_stream', 'dis_stream'):
         return 's%d' % op['s']
     return 'o%d' % idx
@@ -635,8 +659,10 @@ def gen_history(rng):
         if rng.random() < 0.7:
             return rng.choice(epool)
         return gen.gen_expr(rng, ids, rng.choice([1, 2, 3, 4]))
+    roots = {}
     def new_machine(c):
         k = len(machines)
+        roots[k] = k
         kind = rng.choice(['x86', 'custom', 'custom']) if scenario != 'rep' else rng.choice(['custom', 'custom', 'x86'])
         op = {'op': 'new_machine', 'm': k, 'kind': kind, 'c': c}
         if kind == 'custom':
@@ -679,6 +705,12 @@ def gen_history(rng):
                 continue
             k = rng.choice(machines)[0]
             y = rng.random()
+            if y < 0.04 and len(machines) < 5:
+                k2 = len(machines)
+                roots[k2] = roots[k]
+                machines.append((k2, c))
+                ops.append({'op': 'clone', 'm': k2, 'from': k, 'root': roots[k], 'c': c})
+                continue
             if y < 0.30:
                 ops.append({'op': 'eval', 'm': k, 'e': pick_expr(), 'shared': shared, 'c': c})
                 expr_results.append(len(ops) - 1)
@@ -744,6 +776,8 @@ def gen_history(rng):
             elif y < 0.72:
                 hx = rng.choice(bpool)
                 op = {'op': 'lift', 'hex': hx, 'eip': rng.choice([0, 0x1000]), 'c': c}
+                if rng.random() < 0.3:
+                    op['segm'] = sorted(rng.sample(['es', 'ds', 'fs', 'gs', 'cs', 'ss'], rng.choice([1, 2, 6])))
                 cands = [i for i, h in dis_results if h == hx]
                 if cands and shared:
                     op['iref'] = rng.choice(cands)
@@ -758,6 +792,9 @@ def gen_history(rng):
                     streams.append(len(streams))
                 else:
                     ops.append({'op': 'dis_stream', 's': rng.choice(streams), 'c': c})
+    for op in ops:
+        if 'm' in op and op['op'] in ('new_machine', 'eval', 'get_reg', 'dump', 'step', 'affs', 'clone'):
+            op['root'] = roots.get(op['m'], op['m'])
     cfg = {'clients': nclients, 'alias_p': alias_p, 'scenario': scenario, 'bad_p': bad_p, 'ref_p': ref_p}
     return cfg, ops
 
@@ -797,6 +834,10 @@ def renumber(ops, keep):
             made_m.add(op['m'])
         elif op['op'] == 'new_stream':
             made_s.add(op['s'])
+        elif op['op'] == 'clone':
+            if op['from'] not in made_m:
+                continue
+            made_m.add(op['m'])
         elif 'm' in op and thread_of(op, n)[0] == 'm' and op['m'] not in made_m:
             continue
         elif op['op'] == 'dis_stream' and op['s'] not in made_s:
